@@ -129,6 +129,40 @@ fn main() {
         "os-conformance" => {
             std::process::exit(if gdsim::osprobe::run() { 0 } else { 2 });
         }
+        "http-probe" => {
+            // hand-made HTTP exchanges against the real HTTP client, with the allocator figures
+            use gdsim::entry::{Call, Entry};
+            use gdsim::models::misc::{EcoState, HttpFraming, HttpTcpServer};
+            use gdsim::tape::Tape;
+            use gdsim::world::{Proto, World};
+            let ip: std::net::IpAddr = "192.0.2.10".parse().unwrap();
+            let which = args.get(2).map(String::as_str).unwrap_or("plain");
+            let mut t = Tape::replay(Default::default());
+            let st = EcoState::generate(&mut t);
+            let mut srv = HttpTcpServer::new(st.body(), HttpFraming::ContentLength);
+            match which {
+                "lying-length" => {
+                    srv.framing = HttpFraming::UntilClose;
+                    srv.headers.push(("Content-Length".into(), "1073741824".into()));
+                }
+                "gzip" => srv.gzip = true,
+                "gzip-bomb" => {
+                    srv.body = gdsim::hostile::gzip_bomb(70 << 20);
+                    srv.headers.push(("Content-Encoding".into(), "gzip".into()));
+                }
+                "chunked" => srv.framing = HttpFraming::Chunked(vec![10, 100]),
+                _ => {}
+            }
+            let mut w = World::new(t);
+            w.add_server(std::net::SocketAddr::new(ip, 3001), Proto::Tcp, Box::new(srv));
+            let call = Call { entry: Entry::Eco { level: 0 }, ip, port: None, default_port: 3001, timeout: None };
+            let run = gdsim::harness::run_call(w, &call);
+            for l in run.world.render_history(40) {
+                println!("{}", &l[.. l.len().min(200)]);
+            }
+            println!("result: {}", gdsim::props::describe_result(&run.result, &run.crash).chars().take(300).collect::<String>());
+            println!("peak_live={} largest={} allocations={}", run.alloc.peak_live, run.alloc.largest, run.alloc.count);
+        }
         "dump-ports" => {
             // snapshot of the definitions table's default ports (golden data, committed)
             let mut m = std::collections::BTreeMap::new();
